@@ -56,6 +56,7 @@ func (r *Receiver) SegmentHandlerFunc(w http.ResponseWriter, req *http.Request) 
 	}
 	ch, ok := r.channelMgr.GetChannel(stream.chName)
 	if !ok {
+		simYield("receiver.channel-miss")
 		r.channelMgr.AddChannel(r.ctx, stream.chName, stream.chDir)
 		slog.Debug("Created new  channel", "name", stream.chName, "dir", stream.chDir)
 		ch, _ = r.channelMgr.GetChannel(stream.chName)
@@ -84,6 +85,7 @@ func (r *Receiver) SegmentHandlerFunc(w http.ResponseWriter, req *http.Request) 
 		return
 	}
 	if _, ok := r.streams[stream.id()]; !ok {
+		simYield("receiver.stream-miss")
 		log.Info("New stream", "urlPath", path, "streamId", stream.id(), "mediaType", stream.mediaType)
 		r.streams[stream.id()] = stream
 		err := os.MkdirAll(stream.trDir, 0755)
